@@ -12,7 +12,7 @@ from __future__ import annotations
 
 import ast
 
-from .model import Model, Func, norm, call_args
+from .model import Model, Func, norm, call_args, own_returns
 from .report import Ob, OK, VIOLATED, ERROR, INFO
 
 
@@ -91,7 +91,7 @@ def _sanitising_helper(model: Model, f: Func, call) -> bool:
     g = model.functions.get(r) if r else None
     if g is None or not any(_is_norm_call(n) for n in ast.walk(g.node)):
         return False
-    rets = [n for n in ast.walk(g.node) if isinstance(n, ast.Return) and n.value is not None]
+    rets = [n for n in own_returns(g.node) if n.value is not None]
     if not rets:
         return False
     for rt in rets:
@@ -117,8 +117,8 @@ def _tuple_helper_element(model: Model, f: Func, call, j: int, n: int):
     g = model.functions.get(r) if r else None
     if g is None:
         return None
-    rets = [x for x in ast.walk(g.node) if isinstance(x, ast.Return) and isinstance(x.value, ast.Tuple) and len(x.value.elts) == n]
-    if not rets or len(rets) != len([x for x in ast.walk(g.node) if isinstance(x, ast.Return)]):
+    rets = [x for x in own_returns(g.node) if isinstance(x.value, ast.Tuple) and len(x.value.elts) == n]
+    if not rets or len(rets) != len([x for x in own_returns(g.node)]):
         return None
     norm_vars = {x.targets[0].id for x in ast.walk(g.node) if isinstance(x, ast.Assign) and len(x.targets) == 1 and isinstance(x.targets[0], ast.Name)
                  and _is_norm_call(x.value)}
@@ -397,4 +397,136 @@ def rule_scale_free(model: Model, short: str):
                                   f"{short}: `{text}` compares the norm `{norm(a)}` of run-time data with the fixed number {number(b)!r}: operands of small "
                                   "magnitude (all entries scaled by 1e-10, a valid input) fall below it and are treated as zero - the convergence measure is "
                                   "switched off / the scaling is skipped and the result is not within eps of the exact one"))
+    return obs
+
+
+# --------------------------------------------------------------------------- scale degrees (homogeneity)
+
+def rule_homogeneous(model: Model, short: str):
+    """SCALE-FREE, general form (added after seeds S4-C12-2 and S4-C11-1).  Every scalar gets a *scale degree*: a Frobenius norm of run-time data
+    has degree 1 (it scales with the operands), tolerances and other numeric parameters, machine constants and literals have degree 0, products
+    add and quotients subtract degrees, sqrt halves them.  A comparison, `max` / `min`, sum or difference must join equal degrees (the literal 0
+    joins anything): `norm(r) <= eps`, `max(norm(W) * eps, finfo.eps)` compare an absolute quantity with a relative one, so the routine behaves
+    differently for operands scaled by 1e-10 - which the properties' quantifiers include.  Only expressions whose degree is *known* on both sides
+    are judged; one obligation per joined pair with a data-scaled side."""
+    from fractions import Fraction
+    f = _view(model, short)
+    fn = f.node
+    a_ = fn.args
+    pos = a_.posonlyargs + a_.args
+    numeric_params = set()
+    for p_, d_ in zip(pos[len(pos) - len(a_.defaults):], a_.defaults):
+        v = d_.operand if isinstance(d_, ast.UnaryOp) else d_
+        if isinstance(v, ast.Constant) and isinstance(v.value, (int, float)) and not isinstance(v.value, bool):
+            numeric_params.add(p_.arg)
+    defs = {}
+    for n in ast.walk(fn):
+        if isinstance(n, ast.Assign) and len(n.targets) == 1 and isinstance(n.targets[0], ast.Name):
+            defs.setdefault(n.targets[0].id, []).append(n.value)
+        elif isinstance(n, ast.AugAssign) and isinstance(n.target, ast.Name):
+            defs.setdefault(n.target.id, []).append(None)       # accumulations: not judged
+    ZERO_ = "zero"
+    memo = {}
+
+    def deg(e, depth=0):
+        if depth > 6:
+            return None
+        if isinstance(e, ast.Constant):
+            if isinstance(e.value, (int, float)) and not isinstance(e.value, bool):
+                return ZERO_ if e.value == 0 else Fraction(0)
+            return None
+        if isinstance(e, ast.UnaryOp) and isinstance(e.op, (ast.USub, ast.UAdd)):
+            return deg(e.operand, depth + 1)
+        if isinstance(e, ast.Call):
+            if _is_norm_call(e):
+                return Fraction(1)
+            t = norm(e.func).replace(" ", "")
+            last = t.rsplit(".", 1)[-1]
+            if last in ("sqrt",) and len(e.args) == 1:
+                d = deg(e.args[0], depth + 1)
+                return d if d in (None, ZERO_) else d / 2
+            if last in ("float", "abs", "int") and len(e.args) == 1:
+                return deg(e.args[0], depth + 1)
+            if last == "len" and isinstance(e.func, ast.Name):
+                return Fraction(0)          # a count
+            if last in ("cpu", "numpy", "item", "clone", "detach", "double", "to") and isinstance(e.func, ast.Attribute):
+                return deg(e.func.value, depth + 1)
+            if last in ("max", "min") and isinstance(e.func, ast.Name) and len(e.args) >= 2:
+                ds = [deg(x, depth + 1) for x in e.args]
+                known = [d for d in ds if d not in (None, ZERO_)]
+                return known[0] if known and all(d == known[0] for d in known) and None not in ds else None
+            if last == "finfo":
+                return None
+            return None
+        if isinstance(e, ast.Attribute):
+            if e.attr in ("eps", "tiny", "resolution") and isinstance(e.value, ast.Call) and norm(e.value.func).endswith("finfo"):
+                return Fraction(0)          # a machine constant
+            return None
+        if isinstance(e, ast.Name):
+            if e.id in numeric_params:
+                return Fraction(0)
+            if e.id in memo:
+                return memo[e.id]
+            memo[e.id] = None
+            ds = [deg(v, depth + 1) if v is not None else None for v in defs.get(e.id, [])]
+            known = [d for d in ds if d != ZERO_]
+            out = None
+            if ds and None not in ds:
+                out = ZERO_ if not known else (known[0] if all(d == known[0] for d in known) else None)
+            memo[e.id] = out
+            return out
+        if isinstance(e, ast.BinOp):
+            l, r = deg(e.left, depth + 1), deg(e.right, depth + 1)
+            if isinstance(e.op, (ast.Mult, ast.Div)):
+                if l == ZERO_ or (r == ZERO_ and isinstance(e.op, ast.Mult)):
+                    return ZERO_
+                if l is None or r is None or r == ZERO_:
+                    return None
+                return l + r if isinstance(e.op, ast.Mult) else l - r
+            if isinstance(e.op, ast.Pow) and l == 0:
+                return Fraction(0)          # a pure number to any power
+            if isinstance(e.op, ast.Pow) and isinstance(e.right, ast.Constant) and isinstance(e.right.value, (int, float)):
+                return l if l in (None, ZERO_) else l * Fraction(e.right.value).limit_denominator(8)
+            if isinstance(e.op, (ast.Add, ast.Sub)):
+                if l == ZERO_:
+                    return r
+                if r == ZERO_:
+                    return l
+                return l if (l is not None and l == r) else None
+        if isinstance(e, ast.IfExp):
+            a, b = deg(e.body, depth + 1), deg(e.orelse, depth + 1)
+            known = [d for d in (a, b) if d != ZERO_]
+            if None in (a, b):
+                return None
+            return ZERO_ if not known else (known[0] if all(d == known[0] for d in known) else None)
+        return None
+
+    obs = []
+    seen = {}
+
+    def judge(node, parts, what):
+        ds = [(p, deg(p)) for p in parts]
+        known = [(p, d) for p, d in ds if d not in (None, ZERO_)]
+        if len(known) < 2 or not any(d != 0 for _, d in known):
+            return
+        text = norm(node)[:110]
+        c = seen.get(text, 0)
+        seen[text] = c + 1
+        k = f"{short}:SCALE-FREE:degree:{text}:{c}"
+        same = all(d == known[0][1] for _, d in known)
+        if same:
+            obs.append(Ob("SCALE-FREE", k, OK, model.where(f, node), text, f"{what} of quantities of the same scale degree ({known[0][1]})"))
+        else:
+            show = ", ".join(f"`{norm(p)[:40]}` (degree {d})" for p, d in known)
+            obs.append(Ob("SCALE-FREE", k, VIOLATED, model.where(f, node), text,
+                          f"{short}: `{text}` joins quantities of different scale: {show}. A norm of run-time data (degree 1) scales with the operands, a "
+                          "tolerance or machine constant (degree 0) does not: for operands scaled by 1e-10 - inside the property's quantifier - the "
+                          f"{what} tips the other way (convergence declared at once / truncation far above the relative tolerance)"))
+    for n in ast.walk(fn):
+        if isinstance(n, ast.Compare) and len(n.ops) == 1 and isinstance(n.ops[0], (ast.Lt, ast.LtE, ast.Gt, ast.GtE, ast.Eq, ast.NotEq)):
+            judge(n, [n.left, n.comparators[0]], "comparison")
+        elif isinstance(n, ast.Call) and isinstance(n.func, ast.Name) and n.func.id in ("max", "min") and len(n.args) >= 2:
+            judge(n, list(n.args), n.func.id)
+        elif isinstance(n, ast.BinOp) and isinstance(n.op, (ast.Add, ast.Sub)):
+            judge(n, [n.left, n.right], "sum")
     return obs
